@@ -130,6 +130,8 @@ def main(argv=None):
 
     # 1. corpus replay (seconds): seeds from the repository's tests and every shrunk failure ever found
     corpus_files = sorted(glob.glob(os.path.join(ROOT, "corpus", pid, "*.json")))
+    if os.environ.get("VF_NO_CORPUS"):   # development aid: measure what the generated search finds on its own
+        corpus_files = []
     for path in corpus_files:
         with open(path) as f:
             data = json.load(f)
